@@ -3,7 +3,7 @@ from .. import core, gen
 from . import vcdfam
 
 PID = "C13"
-LEVEL = "translation_validation"
+LEVEL = "proof"
 NEEDS_RELEASE = True
 RULE = ("parent bit-vector signals (2/4/9-state mixes) are recorded through the Encoder hook and sliced with signals::slice_signal "
         "(hook), exhaustively for every parent width 2..20 x every sub-range [hi:lo] strictly inside it x three kind profiles, and "
